@@ -176,13 +176,27 @@ def extract(src_root=None, label=None):
     return final
 
 
-def _gc_facts(keep, max_keep=12):
+def _gc_facts(keep):
+    """bounded cache: the 3 newest fact sets of /repo itself and the 8 newest of scratch trees (mutants) survive;
+    fact sets younger than 10 minutes are never removed (another check may be reading them)"""
     d = os.path.join(CACHE, "facts")
-    ents = [os.path.join(d, x) for x in os.listdir(d)]
-    ents = [e for e in ents if os.path.isdir(e) and e != keep]
-    ents.sort(key=os.path.getmtime, reverse=True)
-    for e in ents[max_keep:]:
-        shutil.rmtree(e, ignore_errors=True)
+    mine, other = [], []
+    now = time.time()
+    for x in os.listdir(d):
+        e = os.path.join(d, x)
+        if not os.path.isdir(e) or e == keep:
+            continue
+        root = None
+        try:
+            root = json.load(open(os.path.join(e, "ok"))).get("root")
+        except (OSError, ValueError):
+            pass
+        (mine if root == REPO else other).append(e)
+    for lst, n in ((mine, 3), (other, 8)):
+        lst.sort(key=os.path.getmtime, reverse=True)
+        for e in lst[n:]:
+            if now - os.path.getmtime(e) > 600:
+                shutil.rmtree(e, ignore_errors=True)
 
 
 def extract_posctl():
